@@ -46,8 +46,9 @@ pub fn gen_small_val(r: &mut Rng) -> V {
     }
 }
 
-pub const VAR_NAMES: &[&str] = &["a", "b", "c", "x", "u", "v", "ab", "ü", "long_name1", "_"];
+pub const VAR_NAMES: &[&str] = &["a", "b", "c", "x", "u", "v", "ab", "ü", "long_name1", "_", "ǆx", "σας"];
 pub fn respell(r: &mut Rng, n: &str) -> String {
+    if n == "ǆx" { return (*r.pick(&["ǆx", "ǅx", "ǄX", "ǆX"])).to_string(); }
     match r.below(4) {
         0 => n.to_uppercase(),
         1 => n.chars().enumerate().map(|(i, c)| if i % 2 == 0 { c.to_uppercase().next().unwrap() } else { c }).collect(),
